@@ -5,9 +5,43 @@ produces no output.
 import Compress.Meta.Codec
 import Compress.Flate.Spec
 import Compress.Proofs.Meta
+import Compress.Proofs.MetaSilentHdr
 
 namespace Compress.Proofs.MetaSilent
-open Compress Compress.Meta Compress.Flate
+open Compress Compress.Meta Compress.Flate Compress.Proofs.Meta
+
+/-- one dynamic block whose body is just the end-of-block code. -/
+theorem decodeBlocks_dyn (total fuel : Nat) (out : Array UInt8) (bits b1 b2 b3 rest : Bits) (bfinal : Nat)
+    (lit dist : Huff)
+    (h1 : takeBits 1 bits = some (bfinal, b1)) (h2 : takeBits 2 b1 = some (2, b2))
+    (h3 : readDynamic b2 = .ok (lit, dist, b3))
+    (h4 : inflateBlock lit.tab dist.tab (b3.length + 1) out b3 = (out, .ok rest)) :
+    decodeBlocks total (fuel + 1) out bits =
+      if bfinal = 1 then
+        { out := out, verdict := .ok (total - rest.length + padTo8 (total - rest.length)) }
+      else decodeBlocks total fuel out rest := by
+  simp only [decodeBlocks, h1, h2, h3, h4]
+
+/-- the bits of a meta block, cut into the fields an RFC 1951 decoder reads. -/
+theorem blockBits_fields (buf : List UInt8) (final : FinalMode) (h : Nat) (inv : Bool) (t rest : Bits)
+    (h1 : 1 ≤ h) (h7 : h ≤ 7) (hs : symbolBits buf h (final ≠ .fnil) inv = false :: t) :
+    blockBits buf final h inv ++ rest =
+      Bits.ofNat (if final = .fstream then 1 else 0) 1 ++ (Bits.ofNat 2 2 ++
+        (Bits.ofNat (padsOf buf final h inv) 5 ++ (Bits.ofNat 0 5 ++ (Bits.ofNat (2 * (8 - h)) 4 ++
+          (fieldBits (fields h) ++ ([false] ++ (encodeRuns (runs t) false ++
+            (List.replicate (padsOf buf final h inv) false ++ ([false] ++
+              (List.replicate h true ++ rest)))))))))) := by
+  have e : magicOf final h (padsOf buf final h inv) =
+      magicVals + (if final = .fstream then 1 else 0) + (2 * (8 - h)) * 8192 + padsOf buf final h inv * 8 := by
+    unfold magicOf
+    have : (4 + (8 - h) * 2 - 4) = 2 * (8 - h) := by omega
+    rw [this]
+  have hb : bodyBits buf final h inv = encodeRuns (runs t) false := by
+    unfold bodyBits; rw [hs]; rfl
+  rw [← fieldBits_eq, ← ofNat_ones]
+  unfold blockBits hclensBits
+  rw [e, magic_bits _ (by split <;> omega) (8 - h) (by omega) _ (padsOf_lt _ _ _ _), hb]
+  simp only [List.append_assoc]
 
 /-- **M2.** Wherever a meta block stands in a DEFLATE stream, the RFC 1951
     decoder reads it as one complete dynamic block with an empty body: no output,
@@ -20,6 +54,21 @@ theorem meta_block_silent (buf : List UInt8) (final : FinalMode) (bits : Bits)
       if final = .fstream then
         { out := out, verdict := .ok (total - rest.length + padTo8 (total - rest.length)) }
       else decodeBlocks total fuel out rest := by
-  sorry
+  obtain ⟨hl, inv, a1, a2, a3, a4, a5, rfl⟩ := encodeBlock_some buf final bits h
+  obtain ⟨s1, s2, s3, s4⟩ := symbolBits_shape_aux buf hl (final ≠ .fnil) inv (by omega) a4 a5
+  obtain ⟨t, hs⟩ : ∃ t, symbolBits buf hl (final ≠ .fnil) inv = false :: t := by
+    cases hsym : symbolBits buf hl (final ≠ .fnil) inv with
+    | nil => rw [hsym] at s1; simp at s1
+    | cons b t => rw [hsym] at s2; simp at s2; exact ⟨t, by rw [s2]⟩
+  rw [hs] at s1 s3 s4
+  have ht : t.length = 256 := by simpa using s1
+  have hp := padsOf_lt buf final hl inv
+  rw [blockBits_fields buf final hl inv t rest a1 a2 hs]
+  rw [decodeBlocks_dyn total fuel out _ _ _ _ rest _ _ _
+    (takeBits_ofNat_lt 1 _ _ (by split <;> omega))
+    (takeBits_ofNat_lt 2 2 _ (by omega))
+    (readDynamic_meta hl (padsOf buf final hl inv) t _ a1 a2 hp ht s4)
+    (inflate_eob _ _ _ out _ rest (litHuff_decode_eob hl (false :: t) _ rest a1 a2 s1 s3 s4))]
+  cases final <;> simp
 
 end Compress.Proofs.MetaSilent
